@@ -263,8 +263,8 @@ struct Obs {
     frags: String,
     idx: String,
     scan: Vec<Row>,
-    /// name -> (fields, bitmap)
-    indices: BTreeMap<String, (Vec<i32>, BTreeSet<u64>)>,
+    /// name -> (fields, bitmap, uuid)
+    indices: BTreeMap<String, (Vec<i32>, BTreeSet<u64>, String)>,
 }
 
 impl C24 {
@@ -302,7 +302,7 @@ impl C24 {
                 show_ids(i.fields.iter().map(|f| *f as u64)),
                 if i.fragment_bitmap.is_some() { show_ids(bm.iter().copied()) } else { "none".into() }
             ));
-            indices.insert(i.name.clone(), (i.fields.clone(), bm));
+            indices.insert(i.name.clone(), (i.fields.clone(), bm, i.uuid.to_string()));
         }
         names.sort();
         let scan = kit.scan(ds, &Self::spec(), &ScanOpts::ordered())?;
@@ -651,8 +651,10 @@ impl Prop for C24 {
         let mut used_keys: BTreeSet<i64> = BTreeSet::new();
         // literals per column
         let mut lits: [BTreeSet<i64>; 3] = [BTreeSet::new(), BTreeSet::new(), BTreeSet::new()];
+        // ghost of every index ever committed, by uuid (a stale optimize_indices may merge an index that has been replaced since)
         let mut ghosts: BTreeMap<String, Ghost> = BTreeMap::new();
         let mut seen_version = 0u64;
+        let mut obs_before: BTreeMap<String, (Vec<i32>, BTreeSet<u64>, String)> = BTreeMap::new();
         let mut n_stale_commits = 0usize;
         let mut n_conflicts = 0usize;
         let mut n_index_commits = 0usize;
@@ -882,10 +884,11 @@ impl Prop for C24 {
                     }
                     Operation::DataReplacement { replacements } => {
                         for DataReplacementGroup(f, file) in replacements {
-                            for (nm, g) in ghosts.iter_mut() {
-                                let claimed = obs.indices.get(nm).map(|(_, b)| b.contains(f)).unwrap_or(false);
-                                if claimed && g.fields.iter().any(|x| file.fields.contains(x)) {
-                                    g.stale.insert(*f, KEY_REPL);
+                            for (_, (_, bm, uuid)) in obs_before.iter() {
+                                if let Some(g) = ghosts.get_mut(uuid) {
+                                    if bm.contains(f) && g.fields.iter().any(|x| file.fields.contains(x)) {
+                                        g.stale.insert(*f, KEY_REPL);
+                                    }
                                 }
                             }
                         }
@@ -894,11 +897,11 @@ impl Prop for C24 {
                         n_index_commits += 1;
                         for i in new_indices {
                             let bm: BTreeSet<u64> = i.fragment_bitmap.as_ref().map(|b| b.iter().map(|x| x as u64).collect()).unwrap_or_default();
-                            let merged = removed_indices.iter().any(|r| r.name == i.name);
-                            let old = ghosts.get(&i.name).cloned().unwrap_or_default();
+                            let merged = removed_indices.iter().find(|r| r.name == i.name);
                             let mut g = Ghost { fields: i.fields.clone(), ..Default::default() };
-                            if merged {
-                                // optimize_indices: the old entries are merged into the new index
+                            if let Some(oldmeta) = merged {
+                                // optimize_indices: the entries of the index it was built from are merged into the new one
+                                let old = ghosts.get(&oldmeta.uuid.to_string()).cloned().unwrap_or_default();
                                 for (f, k) in &old.stale {
                                     if bm.contains(f) {
                                         g.stale.insert(*f, *k);
@@ -926,7 +929,7 @@ impl Prop for C24 {
                                     }
                                 }
                             }
-                            ghosts.insert(i.name.clone(), g);
+                            ghosts.insert(i.uuid.to_string(), g);
                         }
                     }
                     Operation::Rewrite { groups, .. } => {
@@ -956,6 +959,7 @@ impl Prop for C24 {
                 n_stale_commits += 1;
             }
             seen_version = obs.version;
+            obs_before = obs.indices.clone();
             res.outputs.push(format!(
                 "ok v={} txn={} frags={} idx={} scan={}",
                 obs.version,
@@ -966,7 +970,7 @@ impl Prop for C24 {
             ));
             anchor = Some(latest.clone());
             // ---- property oracle: indexed = un-indexed for every literal
-            for (nm, (fields, _)) in &obs.indices {
+            for (nm, (fields, _, uuid)) in &obs.indices {
                 let Some(&fid) = fields.first() else { continue };
                 let col = fid as usize;
                 if col == 0 || col > 2 {
@@ -988,21 +992,26 @@ impl Prop for C24 {
                                     .symmetric_difference(&sb)
                                     .map(|r| (r[3].unwrap_or(0) as u64) >> 32)
                                     .collect();
-                                let g = ghosts.get(nm).cloned().unwrap_or_default();
-                                let ks: BTreeSet<Option<&'static str>> = frs.iter().map(|f| g.stale.get(f).copied()).collect();
-                                let key = if ks.len() == 1 { ks.into_iter().next().unwrap() } else { None };
-                                res.failures.push(OracleFailure {
-                                    what: format!(
-                                        "v{} index {nm}: c{col} = {v} returns {} with the scalar index and {} without (fragments {:?})",
-                                        obs.version,
-                                        show_rows(&a),
-                                        show_rows(&b),
-                                        frs
-                                    ),
-                                    key: key.map(|k| k.to_string()),
-                                    line: ln,
-                                });
-                                res.tags.push(format!("oracle:{}", key.unwrap_or("unclassified")));
+                                let g = ghosts.get(uuid).cloned().unwrap_or_default();
+                                // one failure per defect class the differing fragments belong to (None = unexplained)
+                                let mut groups: BTreeMap<Option<&'static str>, BTreeSet<u64>> = BTreeMap::new();
+                                for f in &frs {
+                                    groups.entry(g.stale.get(f).copied()).or_default().insert(*f);
+                                }
+                                for (key, fs) in groups {
+                                    res.failures.push(OracleFailure {
+                                        what: format!(
+                                            "v{} index {nm}: c{col} = {v} returns {} with the scalar index and {} without (fragments {:?})",
+                                            obs.version,
+                                            show_rows(&a),
+                                            show_rows(&b),
+                                            fs
+                                        ),
+                                        key: key.map(|k| k.to_string()),
+                                        line: ln,
+                                    });
+                                    res.tags.push(format!("oracle:{}", key.unwrap_or("unclassified")));
+                                }
                             }
                         }
                         (a, b) => {
